@@ -658,6 +658,25 @@ func ruleEscSet(c *Ctx) {
 			}
 			report(fmt.Sprintf("encodeState.%s (%s): ASCII bytes that are backslash-escaped", name, label), b.posOf(esc), got.and(ascii), want, err)
 		}
+		// U+2028 / U+2029 are escaped whatever the flag says (as the standard library does)
+		u202s := writeStringConstCalls(fn, `\u202`)
+		if len(u202s) != 1 {
+			l.add("R-ESCSET", "codec", "encodeState."+name+": U+2028/U+2029 escape", b.rel(fn.Pos()), Violated, fmt.Sprintf("%d writes of `\\u202`", len(u202s)), true)
+		} else {
+			for _, on := range []bool{true, false} {
+				got, err := b.reachSet(fn, cbyte, map[ssa.Value]bool{flag: on}, tables, u202s[0])
+				label := map[bool]string{true: "escapeHTML on", false: "escapeHTML off"}[on]
+				key := fmt.Sprintf("encodeState.%s (%s): the U+2028/U+2029 escape is reachable for the lead byte 0xE2", name, label)
+				switch {
+				case err != "":
+					l.add("R-ESCSET", "codec", key, b.posOf(u202s[0]), Undecided, err, true)
+				case !got.has(0xE2):
+					l.add("R-ESCSET", "codec", key, b.posOf(u202s[0]), Violated, "with this flag setting the line/paragraph separator escape is unreachable: the HTML switch changes more than <, >, & (and the output differs from encoding/json)", true)
+				default:
+					l.add("R-ESCSET", "codec", key, b.posOf(u202s[0]), Discharged, "reachable for non-ASCII lead bytes "+got.String(), true)
+				}
+			}
+		}
 		// <,>,& take the u00XX spelling
 		u00 := writeStringConstCalls(fn, `u00`)
 		if len(u00) != 1 {
